@@ -72,6 +72,18 @@ class LoopMixin:
             if fn == "range":
                 out = []
                 for s, vals in self.ev_list(node.args, st, sink):
+                    # range(None) raises TypeError: an Optional[int] bound forks into that failure and the plain integer
+                    for q, v in enumerate(vals):
+                        if isinstance(v.t, ty.Opt) and v.t.elem == ty.Int:
+                            isn = ty.opt_is_none(v)
+                            got = self.cases(s, [(z3.Not(isn), "val", ty.opt_val(v)), (isn, "exc", "TypeError")], sink, "L%d" % node.lineno)
+                            if not got:
+                                vals = None
+                                break
+                            s, vals = got[0][0], list(vals)
+                            vals[q] = got[0][1]
+                    if vals is None:
+                        continue
                     if len(vals) == 1:
                         lo, hi = z3.IntVal(0), vals[0].e
                     elif len(vals) == 2:
